@@ -6,9 +6,10 @@ SPEC = {
     "lean_modules": ["PallasVerif.Props.C20"],
     "required_theorems": ["header_roundtrip", "read_write_segment", "frames_parse", "inv_run", "chan_in_order_exactly_once",
                           "chan_quiescent_complete", "chan_delivered_subscribed", "peer_key", "no_cross",
-                          "in_order_exactly_once", "quiescent_complete", "no_leak", "len_overflow_breaks_framing", "consts_match"],
+                          "in_order_exactly_once", "quiescent_complete", "no_leak", "len_overflow_breaks_framing", "consts_match",
+                          "send_msg_chunks_spec"],
     "translators": [translate_consts],
-    "streams": [{"name": "mux", "quick": 150, "thorough": 2400, "timeout": 3000}],
+    "streams": [{"name": "mux", "quick": 450, "thorough": 9000, "timeout": 3000}],
     "rule": "two kinds of cases. pure (2 of 3): 3..10 ops among hdr (header bytes both ways, both stacks), hdrdec (arbitrary 0..12 byte "
             "slices), wseg/wseg2 (Muxer::mux / network2 write_segment observed as raw bytes on a UnixStream pair; payload 0, 1, 7..9, "
             "255..257, 65534, 65535, random; a few 65536/65537/70000 beyond the maximum), rseg/rseg2 (Demuxer::read_segment / network2 "
@@ -30,7 +31,9 @@ SPEC = {
         "arbitrary interleaving of enqueue / muxTick / demuxTick / dequeue (the concurrent `run` ops sample the real behaviour)",
         "protocol ids are < 0x8000 (the direction bit is free) and chunks are at most 65535 bytes (len_overflow_breaks_framing shows "
         "why); subscriptions happen before the plexer is spawned (Plexer::spawn consumes it)",
-        "in the harness an agent uses two AgentChannel handles (one to enqueue, one to dequeue) because both operations need &mut self",
+        "in the harness an agent uses two AgentChannel handles (one to enqueue, one to dequeue) because both operations need &mut self; "
+        "the end of a concurrent run is decided without a clock: after the senders of a side are done a marker chunk is sent on a "
+        "reserved protocol in the same direction (FIFO), and a receiver still pending after the marker has nothing more to get",
     ],
     "explanation": "Self-tests run: subscribe_server without `^ 0x8000` (caught: consts translator fails closed + delivery-missing "
                    "VIOLATION with a `run` replay); EGRESS_MSG_QUEUE_BUFFER 100 -> 128 (quiet).",
